@@ -822,8 +822,8 @@ class C11(Prop):
                     if text.startswith("{%"):
                         m = RE_TAG_OPEN.match(text)
                         ok = bool(m) and text[m.end():].startswith(name) and text.endswith("%}")
-                    else:  # a line statement
-                        ok = text.startswith(name) and "\n" not in text.rstrip("\n")
+                    else:  # a line statement: one line, without the closing delimiter of the liquid tag
+                        ok = text.startswith(name) and "\n" not in text.rstrip("\n") and not text.rstrip().endswith("%}")
                 if not ok:
                     res.fail("O3-spans", f"span-tag:{name}",
                              f"tag {name!r} reported at {sp.template_name!r}[{sp.start}:{sp.end}] = {text!r}; {ctxinfo}")
